@@ -15,8 +15,14 @@ from .kit import UserErr, now
 class World:
     """the shared primitives of one program"""
 
-    def __init__(self, E, log, real=False):
+    def __init__(self, E, log, real=False, params=None, fixed=None):
         self.E, self.log, self.real = E, log, real
+        # fixed: {parameter suffix: concrete value} - secondary arguments that a family keeps
+        # concrete to bound the number of date orderings
+        self.fixed = fixed or {}
+        # symbolic arguments by name: a program can be built several times (C02 runs it on
+        # both wait queue backends) from the same arguments
+        self.params = {} if params is None else params
         self.flag, self.flag2 = Flag(), Flag()
         self.tracked = Tracked(E.const(0))
         self.lock = Lock()
@@ -28,8 +34,27 @@ class World:
         self.tasks = {}
         self.err = UserErr('program failure')
 
+    def _fixed(self, name):
+        suffix = name.rsplit('_', 1)[-1]
+        if suffix in self.fixed:
+            self.params[name] = self.E.const(self.fixed[suffix])
+            return True
+        return False
+
     def num(self, name, lo, hi):
-        return self.E.num(name, lo, hi, real=self.real)
+        if name not in self.params and not self._fixed(name):
+            self.params[name] = self.E.num(name, lo, hi, real=self.real)
+        return self.params[name]
+
+    def int(self, name, lo, hi):
+        if name not in self.params and not self._fixed(name):
+            self.params[name] = self.E.int(name, lo, hi)
+        return self.params[name]
+
+    def realnum(self, name, lo, hi):
+        if name not in self.params and not self._fixed(name):
+            self.params[name] = self.E.real(name, lo, hi)
+        return self.params[name]
 
 
 OPS = [
@@ -109,15 +134,15 @@ def make_op(W, name, tag):
                 await W.flag.set()
         drivers.append(driver)
     elif name == 'tracked.set':
-        v = W.E.int('%s_v' % tag, -5, 5)
+        v = W.int('%s_v' % tag, -5, 5)
 
         async def victim():
             await W.tracked.set(v)
             await (W.tracked + 1)
     elif name == 'await tracked>=x':
         w = n('w')
-        x = W.E.int('%s_x' % tag, -5, 5)
-        v = W.E.int('%s_v' % tag, -5, 5)
+        x = W.int('%s_x' % tag, -5, 5)
+        v = W.int('%s_v' % tag, -5, 5)
 
         async def victim():
             await (W.tracked >= x)
@@ -212,7 +237,7 @@ def make_op(W, name, tag):
     elif name in ('borrow', 'borrow capacities', 'claim'):
         w = n('w')
         h = n('h')
-        a = W.E.int('%s_a' % tag, 0, 2)
+        a = W.int('%s_a' % tag, 0, 2)
         sup = W.cap if name == 'borrow capacities' else W.res
 
         async def victim():
@@ -228,7 +253,7 @@ def make_op(W, name, tag):
                 await (time + w)
         drivers.append(driver)
     elif name == 'pipe.transfer':
-        v = W.E.real('%s_v' % tag, 0, 10)
+        v = W.realnum('%s_v' % tag, 0, 10)
         w = n('w')
 
         async def victim():
